@@ -362,6 +362,7 @@ func (m *Machine) exec(st ast.Stmt, o *Outcome) []*Outcome {
 			o.P = o.P.sub(k)
 			o.TE = o.TE.sub(k)
 			ev("unget", k.String())
+			o.Events[len(o.Events)-1].A = k
 		case "lex.ungetStr":
 			s := ""
 			if tv := m.info().Types[call.Args[0]]; tv.Value != nil {
